@@ -440,11 +440,11 @@ fn gen_cmp(spec: &SchemeSpec, pool: &[MValue]) -> Option<String> {
         _ => MType::Bool,
     };
     let (path, _, each) = gen_path(spec, Some(&want), true)?;
-    let (lhs, ty) = if spec.functions.iter().any(|f| *f != "lower" || want == MType::Bytes) && spec.functions.contains(&"lower") || !spec.functions.is_empty() {
-        wrap_fn(spec, path, &want)
-    } else {
-        (path, want.clone())
-    };
+    let (mut lhs, ty) = wrap_fn(spec, path.clone(), &want);
+    if each && lhs != path {
+        // a function applied to a [*] path yields an array: iterate it again for the comparison
+        lhs.push_str("[*]");
+    }
     let body = match ty {
         MType::Bool => lhs.clone(),
         MType::Int => match choose(6, "cmp.int_op") {
